@@ -218,4 +218,217 @@ theorem planar_mwpm_syndrome (R C : Int) (H : PlanarL.Spec R C) (s : BVec)
         cases hpp : Planar.isPrimal p.1 p.2 <;> simp [hm, hpp])
     exact this.trans (map_mem_pick _ s hnd hs)
 
+/-- **planar_graph_has_pm**: the modelled graph (defects, their nearest virtual plaquettes as a set, the extra
+    virtual node on odd totals) admits a perfect matching for every lattice size, syndrome and type — so a
+    perfect-matching routine always has something to return, and by `planar_mwpm_syndrome` decoding never comes
+    back without a recovery of the right syndrome -/
+theorem planar_graph_has_pm (R C : Int) (H : PlanarL.Spec R C) (s : BVec) (t : Bool) :
+    ∃ m, isPerfectMatchingOfGraph (planarNodes R C t (planarDefects R C s t))
+      (planarEdges R C t (planarDefects R C s t)) m = true :=
+  PlanarL.graph_has_pm R C H s t
+
+/-- existence and correctness together: some perfect matchings exist, and with any of them the decoder's
+    construction yields a recovery with the syndrome -/
+theorem planar_mwpm_total (R C : Int) (H : PlanarL.Spec R C) (s : BVec)
+    (hs : s.length = (Planar.plaquetteIndices R C).length) :
+    ∃ mP mD r, planarMwpmRecovery R C mP mD = .ok r ∧ synd (Planar.stabilizers R C) r = s := by
+  obtain ⟨mP, hP⟩ := planar_graph_has_pm R C H s true
+  obtain ⟨mD, hD⟩ := planar_graph_has_pm R C H s false
+  obtain ⟨r, h1, _, h3⟩ := planar_mwpm_syndrome R C H s hs mP mD hP hD
+  exact ⟨mP, mD, r, h1, h3⟩
+
+/-- **planar_cmwpm_syndrome** (`max_iterations ≥ 1`): for EVERY pair of perfect matchings of the two graphs of
+    identity-hashed nodes handed to `gt.mwpm` in the last iteration, the post-processed match sets (virtual–virtual
+    pairs dropped, pairs sorted, collected in a `frozenset`) yield a recovery with the syndrome.  For
+    `max_iterations = 0` the statement is false (`planarCmwpmNull` is the identity): known finding D2. -/
+theorem planar_cmwpm_syndrome (R C : Int) (H : PlanarL.Spec R C) (s : BVec)
+    (hs : s.length = (Planar.plaquetteIndices R C).length)
+    (mP mD : List (CNode × CNode))
+    (hP : isPerfectMatchingOfGraph (cmwpmNodes (planarDefects R C s true))
+      (cmwpmEdges (planarDefects R C s true)) mP = true)
+    (hD : isPerfectMatchingOfGraph (cmwpmNodes (planarDefects R C s false))
+      (cmwpmEdges (planarDefects R C s false)) mD = true) :
+    ∃ r, planarCmwpmRecovery R C mP mD = .ok r ∧ r.length = 2 * PlanarL.nq R C ∧
+      synd (Planar.stabilizers R C) r = s := by
+  let L := PlanarL.pathSpec R C H
+  have hnd := H.plaquetteIndices_spec.1
+  have hok : ∀ x ∈ cmwpmMatches R C mP ++ cmwpmMatches R C mD, PlanarL.Ok R C x.1 x.2 := by
+    intro x hx
+    rw [List.mem_append] at hx
+    rcases hx with hx | hx
+    · exact PlanarL.cm_ok R C H s true mP hP x hx
+    · exact PlanarL.cm_ok R C H s false mD hD x hx
+  have happ := PlanarL.applyMates_eq R C (cmwpmMatches R C mP ++ cmwpmMatches R C mD)
+    (fun x hx => (PlanarL.ok_path R C H _ _ (hok x hx)).imp fun w hw => hw.1)
+  refine ⟨_, happ, ?_, ?_⟩
+  · unfold xorAll
+    apply foldl_xorV_length _ _ _ (zeros_length _)
+    intro r hr
+    rw [List.mem_map] at hr
+    obtain ⟨x, _, rfl⟩ := hr
+    exact PlanarL.pathT_length R C _ _
+  · have := pairing_defects L (cmwpmMatches R C mP ++ cmwpmMatches R C mD)
+      (pick (Planar.plaquetteIndices R C) s) hok (by
+      intro p hp
+      have hpr : PlanarL.Real R C p := (H.plaquetteIndices_spec.2 p).mp hp
+      have h1 := PlanarL.cm_occ R C H s true mP hP p hpr
+      have h2 := PlanarL.cm_occ R C H s false mD hD p hpr
+      have := occ_append (cmwpmMatches R C mP) (cmwpmMatches R C mD) p
+      unfold occ at this h1 h2
+      rw [this, h1, h2]
+      simp only [PlanarL.mem_planarDefects]
+      by_cases hm : p ∈ pick (Planar.plaquetteIndices R C) s <;>
+        cases hpp : Planar.isPrimal p.1 p.2 <;> simp [hm, hpp])
+    exact this.trans (map_mem_pick _ s hnd hs)
+
+/-! ### toric lattice: MWPM -/
+
+/-- **toric_mwpm_syndrome**: the syndrome of an error has an even number of defects on each of the two lattices
+    (hypothesis `toric_syndrome_even`); then for EVERY pair of perfect matchings of the two complete graphs on
+    the defects the recovery exists and has the syndrome -/
+theorem toric_mwpm_syndrome (R C : Int) (H : ToricL.Spec R C) (s : BVec)
+    (hs : s.length = (Toric.indices R C).length)
+    (toric_syndrome_even : (toricDefects R C s 0).length % 2 = 0 ∧ (toricDefects R C s 1).length % 2 = 0)
+    (m0 m1 : List (Toric.Idx × Toric.Idx))
+    (h0 : isPerfectMatchingOfGraph (toricNodes (toricDefects R C s 0)) (toricEdges (toricDefects R C s 0)) m0 = true)
+    (h1 : isPerfectMatchingOfGraph (toricNodes (toricDefects R C s 1)) (toricEdges (toricDefects R C s 1)) m1 = true) :
+    ∃ r, toricMwpmRecovery R C m0 m1 = .ok r ∧ r.length = 2 * ToricL.nq R C ∧
+      synd (Toric.stabilizers R C) r = s := by
+  let L := ToricL.pathSpec R C H
+  have hnd := H.indices_nodup
+  have hok : ∀ x ∈ m0 ++ m1, ToricL.Ok R C x.1 x.2 := by
+    intro x hx
+    rw [List.mem_append] at hx
+    rcases hx with hx | hx
+    · exact ToricL.pm_ok R C s 0 m0 h0 x hx
+    · exact ToricL.pm_ok R C s 1 m1 h1 x hx
+  have happ := ToricL.applyMates_eq R C (m0 ++ m1) (fun x hx => by
+    obtain ⟨w, hw, _⟩ := H.path_syndrome_vector x.1 (hok x hx).1 x.2 (hok x hx).2.1 (hok x hx).2.2
+    exact ⟨w, hw⟩)
+  refine ⟨_, happ, ?_, ?_⟩
+  · unfold xorAll
+    apply foldl_xorV_length _ _ _ (zeros_length _)
+    intro r hr
+    rw [List.mem_map] at hr
+    obtain ⟨x, _, rfl⟩ := hr
+    exact ToricL.pathT_length R C _ _
+  · have := pairing_defects L (m0 ++ m1) (pick (Toric.indices R C) s) hok (by
+      intro p hp
+      have e0 := pm_occ_gen _ _ _ h0 p
+      have e1 := pm_occ_gen _ _ _ h1 p
+      rw [ToricL.toricNodes_even _ toric_syndrome_even.1] at e0
+      rw [ToricL.toricNodes_even _ toric_syndrome_even.2] at e1
+      have := occ_append m0 m1 p
+      unfold occ at this e0 e1
+      rw [this, e0, e1]
+      simp only [ToricL.mem_toricDefects]
+      rcases ToricL.indices_lattice R C p hp with hl | hl <;>
+        by_cases hm : p ∈ pick (Toric.indices R C) s <;> simp [hm, hl])
+    exact this.trans (map_mem_pick _ s hnd hs)
+
+/-- **toric_graph_has_pm**: with an even number of defects on the lattice the complete graph on them has a
+    perfect matching -/
+theorem toric_graph_has_pm (R C : Int) (H : ToricL.Spec R C) (s : BVec) (l : Int)
+    (toric_syndrome_even : (toricDefects R C s l).length % 2 = 0) :
+    ∃ m, isPerfectMatchingOfGraph (toricNodes (toricDefects R C s l)) (toricEdges (toricDefects R C s l)) m = true :=
+  ToricL.graph_has_pm R C H s l toric_syndrome_even
+
+/-! ### rotated planar lattice: `sample_recovery` -/
+
+/-- **rotated_planar_sample_syndrome** (rotated planar MPS / RMPS `sample_recovery`), given the run-to-boundary
+    lemma: the XOR of the runs from every defect reproduces the syndrome, for every size and syndrome vector -/
+theorem rotated_planar_sample_syndrome (R C : Int) (H : RotatedPlanarL.Spec R C) (s : BVec)
+    (hs : s.length = (RotatedPlanar.plaquetteIndices R C).length) :
+    synd (RotatedPlanar.stabilizers R C) (rotatedPlanarSampleRecovery R C s) = s ∧
+      (rotatedPlanarSampleRecovery R C s).length = 2 * RotatedPlanarL.nq R C := by
+  rw [RotatedPlanarL.sample_eq]
+  have hsub := pick_subset (RotatedPlanar.plaquetteIndices R C) s
+  have hlen : ∀ a ∈ pick (RotatedPlanar.plaquetteIndices R C) s,
+      (rpRunApply R C (RotatedPlanar.identity R C) a).length = 2 * RotatedPlanarL.nq R C :=
+    fun a _ => RotatedPlanarL.run_length R C _ a (RotatedPlanarL.identity_length R C)
+  constructor
+  · rw [runs_defects (RotatedPlanarL.nq R C) (RotatedPlanar.stabilizers R C) (RotatedPlanar.plaquetteIndices R C)
+      (rpRunApply R C (RotatedPlanar.identity R C)) (pick (RotatedPlanar.plaquetteIndices R C) s)
+      (RotatedPlanarL.stabilizers_plaqs R C) (RotatedPlanarL.stabilizers_length R C) hlen
+      (fun a ha => H.run_syndrome a (hsub a ha)) (pick_nodup _ _ H.plaquetteIndices_nodup)]
+    exact map_mem_pick _ s H.plaquetteIndices_nodup hs
+  · unfold xorAll
+    apply foldl_xorV_length _ _ _ (zeros_length _)
+    intro r hr
+    rw [List.mem_map] at hr
+    obtain ⟨x, hx, rfl⟩ := hr
+    exact hlen x hx
+
+/-! ### colour 6.6.6 lattice: `sample_recovery` -/
+
+/-- **color666_sample_syndrome** (colour MPS `sample_recovery`), given the run-to-boundary lemma: Z-runs from the
+    X-type defects and X-runs from the Z-type defects, each to the boundary of the plaquette's colour, reproduce
+    the syndrome — for every size and every syndrome vector -/
+theorem color666_sample_syndrome (L : Int) (H : Color666L.Spec L) (s : BVec)
+    (hs : s.length = 2 * (Color666.plaquetteIndices L).length) :
+    synd (Color666.stabilizers L) (color666SampleRecovery L s) = s ∧
+      (color666SampleRecovery L s).length = 2 * Color666L.nq L := by
+  rw [Color666L.sample_eq]
+  have hlen : ∀ a ∈ Color666L.cdefects L s,
+      (Color666L.crunApply L (Color666.identity L) a).length = 2 * Color666L.nq L :=
+    fun a _ => Color666L.run_length L _ a (Color666L.identity_length L)
+  constructor
+  · rw [runs_defects (Color666L.nq L) (Color666.stabilizers L) (Color666L.cplaqs L)
+      (Color666L.crunApply L (Color666.identity L)) (Color666L.cdefects L s)
+      (Color666L.stabilizers_plaqs L) (Color666L.stabilizers_length L) hlen
+      (fun a ha => H.run_syndrome a (Color666L.cdefects_subset L s a ha))
+      (Color666L.cdefects_nodup L s H.plaquetteIndices_nodup)]
+    refine Eq.trans (List.map_congr_left fun q _ => ?_)
+      (Color666L.map_mem_cdefects L s H.plaquetteIndices_nodup hs)
+    exact decide_eq_decide.mpr Iff.rfl
+  · unfold xorAll
+    apply foldl_xorV_length _ _ _ (zeros_length _)
+    intro r hr
+    rw [List.mem_map] at hr
+    obtain ⟨x, hx, rfl⟩ := hr
+    exact hlen x hx
+
+/-! ### non-vacuity: the hypotheses are satisfiable on concrete non-trivial inputs -/
+
+/-- syndrome of `X(0,0) Z(2,2) Y(1,3)` on the 3×3 planar code: three primal and two dual defects -/
+private def s33 : BVec := [true, true, true, false, false, false, false, true, true, false, false, false]
+
+-- what networkx returned for it (recorded by the harness): odd primal total ⇒ the extra rule is not needed here,
+-- virtual–virtual pairs occur on both lattices
+example : isPerfectMatchingOfGraph (planarNodes 3 3 true (planarDefects 3 3 s33 true))
+    (planarEdges 3 3 true (planarDefects 3 3 s33 true))
+    [((-1, 4), (1, 4)), ((1, 2), (1, 0)), ((-1, 0), (-1, 2))] = true := by decide +kernel
+example : isPerfectMatchingOfGraph (planarNodes 3 3 false (planarDefects 3 3 s33 false))
+    (planarEdges 3 3 false (planarDefects 3 3 s33 false))
+    [((0, 5), (2, -1)), ((2, 1), (0, 3))] = true := by decide +kernel
+example : (planarMwpmRecovery 3 3 [((-1, 4), (1, 4)), ((1, 2), (1, 0)), ((-1, 0), (-1, 2))]
+    [((0, 5), (2, -1)), ((2, 1), (0, 3))]).toOption.map (synd (Planar.stabilizers 3 3)) = some s33 := by
+  decide +kernel
+example : (planarSampleRecovery 3 3 s33).toOption.map (synd (Planar.stabilizers 3 3)) = some s33 := by
+  decide +kernel
+-- a single primal defect: odd total, the extra virtual node (-9,-10) is a node of the graph
+example : planarNodes 2 2 true (planarDefects 2 2 [true, false, false, false] true) = [(1, 0), (-1, 0)] ∧
+    planarNodes 3 3 true (planarDefects 3 3 s33 true) = [(1, 0), (1, 2), (1, 4), (-1, 0), (-1, 2), (-1, 4)] ∧
+    planarVNodes 3 3 true [(1, 0), (3, 0)] = [(-1, 0), (5, 0)] ∧
+    planarVNodes 4 3 true [(1, 0), (3, 0), (5, 2)] = [(-1, 0), (7, 2), (-9, -10)] := by decide +kernel
+-- toric 3×3, syndrome of X(0,0,0) Z(1,1,1) Y(0,2,1): four defects on lattice 0, two on lattice 1
+private def t33 : BVec :=
+  [true, false, false, false, true, false, true, true, false, false, true, false, false, false, true, false, false, false]
+example : isPerfectMatchingOfGraph (toricNodes (toricDefects 3 3 t33 0)) (toricEdges (toricDefects 3 3 t33 0))
+    [((0, 2, 0), (0, 0, 0)), ((0, 2, 1), (0, 1, 1))] = true ∧
+    (toricDefects 3 3 t33 0).length % 2 = 0 ∧ (toricDefects 3 3 t33 1).length % 2 = 0 := by decide +kernel
+example : (toricMwpmRecovery 3 3 [((0, 2, 0), (0, 0, 0)), ((0, 2, 1), (0, 1, 1))]
+    [((1, 0, 1), (1, 1, 2))]).toOption.map (synd (Toric.stabilizers 3 3)) = some t33 := by decide +kernel
+example : synd (RotatedPlanar.stabilizers 3 4) (rotatedPlanarSampleRecovery 3 4
+    [true, false, true, true, false, false, true, false, true, false, true]) =
+    [true, false, true, true, false, false, true, false, true, false, true] := by decide +kernel
+example : synd (Color666.stabilizers 5) (color666SampleRecovery 5
+    [true, false, true, true, false, false, true, false, true, false, true, true, false, false, false, true, true, true]) =
+    [true, false, true, true, false, false, true, false, true, false, true, true, false, false, false, true, true, true] := by
+  decide +kernel
+example : naiveDecode 2 [toBsf [.X, .X], toBsf [.Z, .Z]] [true, false] = some (toBsf [.Z, .I]) := by decide +kernel
+example : recoveryOk (Planar.stabilizers 3 3) s33 (Planar.identity 3 3) = false := by decide +kernel
+-- D2: the documented null decoder (max_iterations = 0) returns the identity, which fails the monitor on s33
+example : planarCmwpmNull 3 3 = .ok (Planar.identity 3 3) := by decide +kernel
+
 end Qec.C02
